@@ -25,16 +25,17 @@ def handle (op : String) (args : List String) : String :=
       | none => "err BadTree"
   | "diff", [dsl, a, b, o] =>
     withSchema dsl fun S => withTree S a fun A => withTree S b fun B =>
-      "ok " ++ dumpTok (diff S (o != "0") A B)
+      let r := diffFull S (o != "0") A B
+      "ok " ++ dumpTok r.1 ++ " " ++ toString r.2
   | "diffapply", [dsl, a, b, o] =>
     withSchema dsl fun S => withTree S a fun A => withTree S b fun B =>
-      match apply S A (diff S (o != "0") A B) with
-      | .ok r => "ok " ++ dumpTok (stripNpL S r)
+      match apply S A (diffFromPtr S (o != "0") A B) with
+      | .ok r => if hasDupInst S (heightL r + 1) r then "ok DupInstances" else "ok " ++ dumpTok (stripNpL S r)
       | .error e => "err " ++ e.name
   | "apply3", [dsl, a, b, c, o] =>
     withSchema dsl fun S => withTree S a fun A => withTree S b fun B => withTree S c fun C =>
-      match apply S C (diff S (o != "0") A B) with
-      | .ok r => "ok " ++ dumpTok (stripNpL S r)
+      match apply S C (diffFromPtr S (o != "0") A B) with
+      | .ok r => if hasDupInst S (heightL r + 1) r then "ok DupInstances" else "ok " ++ dumpTok (stripNpL S r)
       | .error e => "err " ++ e.name
   | _, _ => "err BadOp"
 
